@@ -111,6 +111,14 @@ type World struct {
 	//   "ts-on-redundant"   no tombstone that removes a stored object carrying a redundant mark
 	//   "ts-link"           no tombstone that removes a stored non-REGULAR object with payload (link)
 	Avoid map[string]bool
+	// FollowAbsentMarks narrows the "mark-nonphysical" exclusion: garbage marks on
+	// ABSENT IDs without children are still generated; the recorded defect (the
+	// mark is counted in the GC counter) is followed by Phantom, so that the
+	// number reported for the container is expected to be lower by exactly the
+	// phantom marks still present – and must come back once Delete drops them.
+	FollowAbsentMarks bool
+	// Phantom: garbage marks created on absent IDs (counted by the implementation).
+	Phantom map[mm.Addr]bool
 	// Excluded counts, per Avoid class, the actions redirected or dropped.
 	Excluded map[string]int
 	// OnAdmission, if set, is consulted when model and code disagree on the
@@ -121,7 +129,7 @@ type World struct {
 
 // NewWorld creates a world over backend b.
 func NewWorld(cat mm.Catalog, b Backend, ep *stor.Epoch) *World {
-	return &World{Cat: cat, M: mm.New(), B: b, Ep: ep, Seen: map[string]bool{}, Avoid: map[string]bool{}, Excluded: map[string]int{}}
+	return &World{Cat: cat, M: mm.New(), B: b, Ep: ep, Seen: map[string]bool{}, Avoid: map[string]bool{}, Excluded: map[string]int{}, Phantom: map[mm.Addr]bool{}}
 }
 
 func (w *World) log(f string, a ...any) { w.Ops = append(w.Ops, fmt.Sprintf(f, a...)) }
@@ -278,8 +286,35 @@ func (w *World) allPhysical(a mm.Addr) bool {
 	return true
 }
 
+// Phantoms drops phantom entries whose mark is gone (deleted, container
+// deleted) and returns how many remain in container ci.
+func (w *World) Phantoms(ci int) int {
+	n := 0
+	for a := range w.Phantom {
+		if w.M.Mark(a) == mm.MarkNone || w.M.Stored(a) {
+			delete(w.Phantom, a)
+			continue
+		}
+		if a.C == ci {
+			n++
+		}
+	}
+	return n
+}
+
 // avoidPut returns the Avoid class that forbids putting s now ("" if none).
 func (w *World) avoidPut(a mm.Addr, s uni.Spec) string {
+	if w.Avoid["mark-nonphysical"] {
+		// storing an ID that carries a phantom mark belongs to the same recorded class
+		if w.Phantom[a] && w.M.Mark(a) != mm.MarkNone {
+			return "mark-nonphysical"
+		}
+		if ph, ok := mm.ParentHeader(s); ok {
+			if pa := (mm.Addr{C: a.C, I: ph.ID}); w.Phantom[pa] && w.M.Mark(pa) != mm.MarkNone {
+				return "mark-nonphysical"
+			}
+		}
+	}
 	if w.Avoid["reput-over-mark"] {
 		// a stored object hidden by a (possibly inherited) default garbage mark is indexed again
 		if w.M.Stored(a) && w.M.Primary(a, w.Epoch) == mm.Garbage {
@@ -359,8 +394,17 @@ func (w *World) Actions() map[string]func(*rapid.T) {
 		if w.Avoid["mark-nonphysical"] {
 			var keep []int
 			for _, id := range ids {
-				if w.allPhysical(mm.Addr{C: c, I: id}) {
+				x := mm.Addr{C: c, I: id}
+				switch {
+				case w.allPhysical(x):
 					keep = append(keep, id)
+				case w.FollowAbsentMarks && !w.M.Stored(x) && len(w.M.Children(x)) == 0:
+					keep = append(keep, id)
+					if w.M.Mark(x) == mm.MarkNone {
+						w.Phantom[x] = true
+						w.Seen["phantom-mark-on-absent"] = true
+						w.Excluded["mark-nonphysical"]++ // occurrence of the recorded defect (followed, not dropped)
+					}
 				}
 			}
 			if len(keep) != len(ids) {
